@@ -550,6 +550,10 @@ PrinterPtr Printer::create() noexcept
 
 std::string Printer::printModel(const ModelPtr &model, bool autoIds)
 {
+    // Start from an empty issue list, as every other service does, so that the
+    // issues are those of this call only.
+    pFunc()->removeAllIssues();
+
     if (model == nullptr) {
         return "";
     }
